@@ -196,6 +196,22 @@ Inst decode(Tape &t, bool thorough) {
 bool prop(Tape &t, Report &R) {
   Inst in = decode(t, R.thorough());
   in.history = t.weighted({3, 1, 1, 1});  // decided last
+  // decided last: the same instance with every supply and demand scaled by a common factor so
+  // that the totals leave the 32-bit range (areas in database units) while each product
+  // amount x distance stays far inside 64 bits
+  {
+    uint32_t w = t.next();
+    ll S = 0, D = 0;
+    for (ll x : in.s) S += x;
+    for (ll x : in.d) D += x;
+    if (w % 4 == 1 && std::max(S, D) > 0) {
+      ll target = (1LL << 31) + (ll)(t.next() % (1u << 31)) * 2;
+      ll F = target / std::max(S, D) + 1;
+      for (ll &x : in.s) x *= F;
+      for (ll &x : in.d) x *= F;
+      R.classify("amounts:totals>=2^31");
+    }
+  }
   static const char *hn[] = {"calls:solve,assign", "calls:assign,solve", "calls:solve,assign,solve,assign", "calls:balanceDemand-twice"};
   R.classify(hn[in.history]);
   bool z = false;
